@@ -227,8 +227,9 @@ type Attr struct {
 }
 
 type Op struct {
-	Kind string // save | upsert | firstorinit | firstorcreate
+	Kind string // save | saveslice | upsert | firstorinit | firstorcreate
 	V    Val
+	Vs   []Val // saveslice: the records, with distinct non-zero keys and distinct codes
 	// upsert
 	Rule   string   // nothing | nothing-id | updates-id | updates-code | updateall
 	Subset []string // columns of DoUpdates
@@ -259,6 +260,8 @@ func (o Op) String() string {
 	switch o.Kind {
 	case "save":
 		return fmt.Sprintf("Save(%+v)", o.V)
+	case "saveslice":
+		return fmt.Sprintf("Save(&[]T%+v)", o.Vs)
 	case "upsert":
 		if o.MapCols != nil {
 			return fmt.Sprintf("Model(&T{}).Create(map of %+v with columns id,code,%v) OnConflict{%s %v}", o.V, o.MapCols, o.Rule, o.Subset)
@@ -347,10 +350,18 @@ func condValue(conds []Attr, form string, kind int) interface{} {
 	return recAttr(kind, conds...).Elem().Interface()
 }
 
+// fixedValue is what an assign-* rule writes into column c on conflict.
+func fixedValue(c string) interface{} {
+	if c == "age" {
+		return 9
+	}
+	return "fixed-" + c
+}
+
 // chainLen is the number of chain calls before the finisher (positions 0..chainLen).
 func chainLen(o Op) int {
 	switch o.Kind {
-	case "save":
+	case "save", "saveslice":
 		return 0
 	case "upsert":
 		if o.MapCols != nil {
@@ -384,6 +395,13 @@ func run(d *testdb.DB, kind int, o Op, v variant) Outcome {
 		r := recOf(kind, o.V)
 		res = tx.Save(r.Interface())
 		out.Out, out.OutValid = rowOf(r), true
+	case "saveslice":
+		tx := v.apply(db, 0)
+		sl := reflect.New(reflect.SliceOf(newRec(kind).Elem().Type()))
+		for _, x := range o.Vs {
+			sl.Elem().Set(reflect.Append(sl.Elem(), recOf(kind, x).Elem()))
+		}
+		res = tx.Save(sl.Interface())
 	case "upsert":
 		var oc clause.OnConflict
 		switch o.Rule {
@@ -399,6 +417,13 @@ func run(d *testdb.DB, kind int, o Op, v variant) Outcome {
 			oc = clause.OnConflict{UpdateAll: true}
 		case "updateall-code":
 			oc = clause.OnConflict{Columns: []clause.Column{{Name: "code"}}, UpdateAll: true}
+		case "assign-id", "assign-code":
+			// explicit values instead of the proposed row's
+			am := map[string]interface{}{}
+			for _, c := range o.Subset {
+				am[c] = fixedValue(c)
+			}
+			oc = clause.OnConflict{Columns: []clause.Column{{Name: strings.TrimPrefix(o.Rule, "assign-")}}, DoUpdates: clause.Assignments(am)}
 		}
 		if o.MapCols != nil {
 			mv := map[string]interface{}{"code": o.V.Code}
@@ -481,6 +506,16 @@ func expect(m *Model, o Op) (exp Outcome) {
 		}
 		m.put(r)
 		return Outcome{Out: r, OutValid: true, RowsAffected: 1, RAValid: true}
+	case "saveslice":
+		w := m.clone()
+		for _, v := range o.Vs {
+			if c := w.byCode(v.Code); c != nil && c.ID != v.ID {
+				return Outcome{Err: true} // one statement: nothing of it stays
+			}
+			w.put(Row{ID: v.ID, Code: v.Code, Name: v.Name, Age: v.Age, Note: v.Note})
+		}
+		*m = *w
+		return Outcome{RowsAffected: int64(len(o.Vs)), RAValid: true}
 	case "upsert":
 		v := o.V
 		supplied := func(c string) bool {
@@ -524,7 +559,7 @@ func expect(m *Model, o Op) (exp Outcome) {
 			return Outcome{RowsAffected: 0, RAValid: true}
 		}
 		var target *Row
-		if o.Rule == "updates-code" || o.Rule == "updateall-code" {
+		if o.Rule == "updates-code" || o.Rule == "updateall-code" || o.Rule == "assign-code" {
 			if byCode == nil {
 				return Outcome{Err: true} // primary-key conflict is not the upsert target
 			}
@@ -550,6 +585,18 @@ func expect(m *Model, o Op) (exp Outcome) {
 					t.Note = v.Note
 				}
 				t.Nulls = t.Nulls&^nullBit(c) | vNulls&nullBit(c) // excluded.col is NULL when the map left it out
+			}
+		case "assign-id", "assign-code":
+			for _, c := range o.Subset {
+				switch c {
+				case "name":
+					t.Name = "fixed-name"
+				case "age":
+					t.Age = 9
+				case "note":
+					t.Note = "fixed-note"
+				}
+				t.Nulls &^= nullBit(c)
 			}
 		case "updateall", "updateall-code":
 			// every column except the primary key takes the proposed value (deleted_at included);
@@ -879,21 +926,29 @@ func genAttr(t *rapid.T, label string, cols []string, allowZero bool) Attr {
 }
 
 func genOp(t *rapid.T, m *Model) Op {
-	kinds := []string{"save", "save", "upsert", "upsert", "firstorinit", "firstorcreate", "firstorcreate"}
+	kinds := []string{"save", "save", "saveslice", "upsert", "upsert", "upsert", "firstorinit", "firstorcreate", "firstorcreate"}
 	if m.Kind == kAppKey {
 		// FirstOrCreate would store its new record under key 0, and gorm treats a zero key as "no key"
 		// from then on (documented): records of this model are only written with a key
-		kinds = []string{"save", "save", "upsert", "upsert", "upsert", "firstorinit"}
+		kinds = []string{"save", "save", "saveslice", "upsert", "upsert", "upsert", "firstorinit"}
 	}
 	kind := rapid.SampledFrom(kinds).Draw(t, "kind")
 	o := Op{Kind: kind}
 	switch kind {
 	case "save":
 		o.V = genVal(t, "v", m.Kind)
+	case "saveslice":
+		ids := rapid.Permutation([]int{1, 2, 3, 4, 5}).Draw(t, "ids")
+		codes := rapid.Permutation([]string{"c1", "c2", "c3", "c4", ""}).Draw(t, "codes")
+		for i, n := 0, rapid.IntRange(2, 3).Draw(t, "n"); i < n; i++ {
+			v := genVal(t, fmt.Sprintf("v%d", i), m.Kind)
+			v.ID, v.Code = uint(ids[i]), codes[i]
+			o.Vs = append(o.Vs, v)
+		}
 	case "upsert":
 		o.V = genVal(t, "v", m.Kind)
-		o.Rule = rapid.SampledFrom([]string{"nothing", "nothing-id", "updates-id", "updates-code", "updateall", "updateall-code"}).Draw(t, "rule")
-		if strings.HasPrefix(o.Rule, "updates") {
+		o.Rule = rapid.SampledFrom([]string{"nothing", "nothing-id", "updates-id", "updates-code", "updateall", "updateall-code", "assign-id", "assign-code"}).Draw(t, "rule")
+		if strings.HasPrefix(o.Rule, "updates") || strings.HasPrefix(o.Rule, "assign") {
 			all := []string{"name", "age", "note"}
 			mask := rapid.IntRange(1, 7).Draw(t, "subset")
 			for i, c := range all {
@@ -989,7 +1044,7 @@ func genCondAttr(t *rapid.T, label, col, form string) Attr {
 // ---- the property ---------------------------------------------------------------------------
 
 func TestC16(t *testing.T) {
-	evid.Rule("C16: stateful histories (1-8 operations) of Save / Create+OnConflict{DoNothing,DoUpdates(subset),UpdateAll, target id or the unique column} / FirstOrInit / FirstOrCreate (struct, map, inline conditions; Attrs/Assign as struct, map, key-value) over keys 0..5 and four unique codes, plain and soft-delete model, each compared with a reference map and re-run with Session/WithContext at every chain position on identical database copies; non-trivial = a key or unique-column collision happened and a Session/WithContext variant not in last position was compared; distinct = model kind + initial rows + operation list")
+	evid.Rule("C16: stateful histories (1-8 operations) of Save (one record, or a slice of 2-3) / Create+OnConflict{DoNothing, DoUpdates(column subset, from the proposed row or explicit values), UpdateAll; target id or the unique column} with the proposed row as struct or as a map carrying a column subset / FirstOrInit / FirstOrCreate (struct, map, inline conditions; Attrs/Assign as struct, map, key-value; optionally Unscoped on the soft-delete model) over keys 0..5 and four unique codes, plain and soft-delete model, each compared with a reference map and re-run with Session/WithContext at every chain position on identical database copies; non-trivial = a key or unique-column collision happened and a Session/WithContext variant not in last position was compared; distinct = model kind + initial rows + operation list")
 	evid.Assume("SQLite's own resolution of INSERT ... ON CONFLICT is trusted; proposed rows conflicting with two different rows are not generated")
 	rapid.Check(t, func(rt *rapid.T) {
 		kind := rapid.SampledFrom([]int{kPlain, kPlain, kSoft, kSoft, kAppKey}).Draw(rt, "kind")
@@ -1036,7 +1091,21 @@ func TestC16(t *testing.T) {
 				collision = true
 				classes["outcome:conflict-error"] = true
 			}
-			if o.Kind == "save" || o.Kind == "upsert" {
+			if o.Kind == "saveslice" {
+				for _, v := range o.Vs {
+					if _, ok := pre.Rows[v.ID]; ok {
+						collision = true
+						classes["collision:key"] = true
+						if pre.Rows[v.ID].Deleted {
+							classes["collision:soft-deleted-key"] = true
+						}
+					}
+					if pre.byCode(v.Code) != nil {
+						collision = true
+						classes["collision:unique-column"] = true
+					}
+				}
+			} else if o.Kind == "save" || o.Kind == "upsert" {
 				if o.V.ID != 0 {
 					if _, ok := pre.Rows[o.V.ID]; ok {
 						collision = true
@@ -1125,7 +1194,7 @@ func TestC16(t *testing.T) {
 			}
 
 			// -- Save twice equals Save once
-			if o.Kind == "save" && !exp.Err {
+			if (o.Kind == "save" || o.Kind == "saveslice") && !exp.Err {
 				o2 := o
 				o2.V.ID = exp.Out.ID
 				got2 := run(d, kind, o2, variant{pos: -1})
@@ -1152,7 +1221,7 @@ func TestC16(t *testing.T) {
 						midVariant = true
 					}
 					same := vgot.Err == got.Err && vgot.Out == got.Out && vgot.RowsAffected == got.RowsAffected && rowsEqual(vrows, rows)
-					if o.Kind != "save" { // the baseline table of a Save was written twice: timestamps may differ
+					if o.Kind != "save" && o.Kind != "saveslice" { // the baseline table of a Save was written twice: timestamps may differ
 						same = same && vfull == full
 					}
 					if !same {
